@@ -807,4 +807,3 @@ theorem expr_rt_closed (t : Expr) (ht : WF t) :
 
 end P.Peg
 
-#print axioms P.Peg.expr_rt_closed
